@@ -308,6 +308,7 @@ func emitSMT(out *Out, r *Rng, f smtFault, nclaims int) {
 	c := Case{Op: "verify.smtp", In: J{"fault": f.name}, Tags: []string{"fault:" + f.name, fmt.Sprintf("claims:%d", nclaims/10*10)}, NT: true}
 	setCurrent(out, &c)
 	calls := 0
+	res.errDoc = r.Intn(3)
 	verr := runVerify(s.vc, verifiable.Iden3SparseMerkleTreeProofType, res.resolver(&calls), nil, s.c.loader())
 	impl := classify(verr)
 	st := p.IssuerData.State
